@@ -138,7 +138,7 @@ func checkC09(cr *checkResult) {
 		Init: func() interface{} { return "" },
 		Step: func(state, input, output interface{}) (bool, interface{}) {
 			steps++
-			if steps > 20000 || cr.tw.builds > 1500 {
+			if steps > 6000 || cr.tw.builds > 400 {
 				gaveUp = true
 				return false, state
 			}
